@@ -165,7 +165,37 @@ def check(ctx):
     t = sharded(ctx, "letters", ["-mode", "letters", "-in", jf, "-n", 3, "-seed", ctx.seed] + probe, shards, scenarios=len(scns), per_process=150)
     runner.run_job(ctx, _job(ctx, "letters", t, _replay))
     paths.append(t)
+    # histories with a window in which the lease database cannot be written (somebody else's write transaction): what
+    # was handed out before and AFTER the window is restored by a restart; bindings made inside the window are exempt
+    fargs = ["-mode", "fault", "-count", 30 if ctx.quick else 400, "-seed", ctx.seed]
+    wd = ctx.scratch.sub("range-fault")
+    ft = os.path.join(wd, "fault.ndjson")
+    core.run_harness(ctx.need_harness(), ["range"] + [str(a) for a in fargs] + ["-out", ft, "-dir", wd], wd, timeout=1200)
+    runner.run_job(ctx, _job(ctx, "fault", ft, _rerun([str(a) for a in fargs])))
+    paths.append(ft)
     st = _stats(paths)
+    # vacuity guard: the window must really have made writes fail (a binding handed out inside it is missing from the
+    # rows of the first crash point after it, on the code as it is)
+    lost, window = 0, None
+    for line in open(ft):
+        e = json.loads(line)
+        if e["ev"] == "reset":
+            window, inside = None, set()
+        elif e["ev"] == "fault":
+            window = e["on"]
+            if e["on"]:
+                inside = set()
+        elif e["ev"] == "req" and window and e["res"] == "reply":
+            inside.add(e["mac"])
+        elif e["ev"] == "req" and window and e["res"] == "drop":
+            lost += 1      # refusing to answer while the store cannot be written is a visible effect of the window too
+        elif e["ev"] == "probe" and window is False and inside:
+            rows = {r["m"] for r in e["rows"]}
+            lost += len([m for m in inside if m not in rows])
+            inside = set()
+    st["fault_windows_bindings_not_persisted"] = lost
+    if lost == 0 and not ctx.violations:
+        raise Infra("the storage-fault window never made a lease write fail: the fault scenarios are vacuous")
     st["tlc_generated_behaviours_replayed"] = len(scns)
     if prop == "C02":
         h = ctx.need_harness()
@@ -195,7 +225,8 @@ def check(ctx):
         rule="every request history of the tier's depth over {DISCOVER,REQUEST} x 3 clients + restart on a 2-address range "
              "(so exhaustion and a third client are reachable), plus seeded depth-16+ histories on ranges of 2,3,5,63,64,65 addresses "
              "(some ending at 255.255.255.255) with restarts and 2.1 s ticks; C03 additionally takes EVERY prefix as a crash point "
-             "(database copied, fresh Setup4 on the copy, all clients re-queried, remaining capacity counted, rows read); "
+             "(database copied, fresh Setup4 on the copy, all clients re-queried, remaining capacity counted, rows read); histories with one "
+             "window of a foreign write transaction on the database (transient storage fault), crash points before and after it; "
              "distinct_nontrivial = " + ("renewals + drops at exhaustion" if prop == "C02" else "crash points with at least one binding"),
         extra_cov=st, distinct_nontrivial=nontriv, exhaustive=False)
 
